@@ -121,6 +121,7 @@ def run_threaded(case):
 
     det, errors = twothread.run_two(case["sched"], writer, reader)
     info["switches"] = det.n_switch
+    info["schedule"] = [det.ydigest, det.step, [list(d) for d in det.decisions]]
     info["accepted"] = len(xs)
     if det.aborted:
         return ("harness", "two-thread run aborted: %s" % det.aborted), info
@@ -415,7 +416,7 @@ def execute(case):
         f, info = run_threaded(case)
     else:
         f, info = run_tally(case) if case["kind"] == "tally" else run_counter(case)
-    res = {"clean": f is None or f[0] != "harness", "digest": common.digest([case, f and f[0]]),
+    res = {"clean": f is None or f[0] != "harness", "digest": common.digest([case, f and f[0], info.get("schedule")]),
            "counters": {"variant:" + case["variant"]: 1,
                         "regime:" + case.get("regime", "counter"): 1,
                         "fault:rejected_input": info["rejected"],
